@@ -7,7 +7,8 @@ MS_REAL = ["the compiler of the current tree (eqlog::process, module mode, in-pr
            "real rustc compiles the generated modules against the real eqlog-runtime (path dependency on /repo)",
            "the generated model is driven through its generated public API; private state is read by a driver file textually included next to the generated module"]
 
-COMMON_MS_RULE = ("corpus = generated programs (typed random generator, generator seed 1; quick 40 / thorough 120 programs; shapes: joins of 1-4 atoms, "
+COMMON_MS_RULE = ("corpus = the repository's own test theories as far as the fragment parser covers them (no model declarations, <= 3 kB) plus "
+                  "generated programs (typed random generator, generator seed 1; quick 40 / thorough 120 programs; shapes: joins of 1-4 atoms, "
                   "repeated variables inside an atom, repeated atoms of one relation, premise equalities, nested terms, wildcards, sort atoms, "
                   "interleaved if/then, equality conclusions, `!` with and without `:=`, branch, match/enum), recompiled by the current compiler on "
                   "every run; ")
